@@ -23,7 +23,7 @@ RULE_TEXT = ("2-4 tasks issue 3-6 operations in total against one run's state: s
 COMPONENTS = {"real": ["InMemoryStateStore, SqliteStateStore (stdlib sqlite3, file DB), SqliteWorkflowStore.create_state_store"],
               "stub": [], "sim": ["loop, clock, sequential state model"]}
 ASSUMPTIONS = ["each edit_state block counts as one atomic operation (statement)", "sqlite3 calls are synchronous; interleaving happens only at awaits"]
-EXPECTED_PROBES = ["typed-child-state", "parent-merge-during-edit-block", "overlapping-edit-blocks", "per-task-store-objects", "shared-sqlite-store", "memory-store"]
+EXPECTED_PROBES = ["typed-child-state", "parent-merge-during-edit-block", "overlapping-edit-blocks", "per-task-store-objects", "shared-sqlite-store", "memory-store", "crowd-of-other-runs"]
 LEVEL_TEXT = "Seeded exploration of operation timings; linearizability-style search of the final state against a sequential model."
 LEVEL_NOTE = "Trusted: simulator loop, sequential model (set/replace/clear/increment on a dict)."
 
@@ -62,6 +62,10 @@ def apply_typed(state, op):
     return s
 
 
+# an edit_state block may stay open for a long time (a model call inside it): waiters must keep waiting, however long
+LONG = [45, 700]
+
+
 def _run_typed(tape):
     """typed child state (ChildSt(BaseSt)) with parent-type set_state merges racing edit_state blocks"""
     arrangement = tape.choice(["mem-typed", "sqlite-typed"], "arrangement.t")
@@ -72,7 +76,7 @@ def _run_typed(tape):
     for i in range(nops):
         kind = tape.choice(["inc", "app", "app", "merge", "merge", "set", "replace", "clear"], "op.kind")
         if kind in ("inc", "app"):
-            op = (kind, tape.choice(grid, "op.inner"))
+            op = (kind, tape.choice(grid + LONG, "op.inner"))
         elif kind == "merge":
             op = ("merge", 20 + i)
         elif kind == "set":
@@ -161,6 +165,7 @@ def run(tape):
     if tape.draw(4, "typed?") == 0:
         return _run_typed(tape)
     arrangement = tape.choice(["mem", "sqlite-shared", "sqlite-per-task", "sqlite-per-task"], "arrangement")
+    crowd_at = tape.choice([None, None, None, 0, 1], "crowd") if arrangement == "sqlite-shared" else None
     ntasks = tape.rng_int(2, 4, "ntasks")
     nops = tape.rng_int(3, 6, "nops")
     grid = [0, 0, 1, 2]
@@ -168,7 +173,7 @@ def run(tape):
     for i in range(nops):
         kind = tape.choice(["inc", "inc", "inc", "set", "replace", "clear"], "op.kind")
         if kind == "inc":
-            op = ("inc", tape.choice(["c", "d"], "op.key"), tape.choice(grid, "op.inner"))
+            op = ("inc", tape.choice(["c", "d"], "op.key"), tape.choice(grid + LONG, "op.inner"))
         elif kind == "set":
             op = ("set", tape.choice(["c", "x"], "op.key"), 10 + i)
         elif kind == "replace":
@@ -283,7 +288,15 @@ def run(tape):
                 if p["delay"]:
                     await asyncio.sleep(p["delay"])
                 await do(st, p)
-        await asyncio.gather(*[task(t) for t in range(ntasks)])
+        async def crowd():
+            # many OTHER runs of the same server use their state stores meanwhile (each its own run id): no effect on run1's locking
+            if crowd_at:
+                await asyncio.sleep(crowd_at)
+            world.probe("crowd-of-other-runs")
+            for r in range(140):
+                await ws.create_state_store(f"other{r}").set("k", r)
+        extra = [crowd()] if (crowd_at is not None and arrangement == "sqlite-shared") else []
+        await asyncio.gather(*[task(t) for t in range(ntasks)], *extra)
         if children:
             await asyncio.gather(*children)
         final = await store_for(0).get_state()
